@@ -230,6 +230,9 @@ func TestVerifC20Laws(t *testing.T) {
 type e2eCase struct {
 	Spec progen.Spec   `json:"spec"`
 	Cfg  runner.Config `json:"cfg"`
+	// Recompute: the Result is discarded and then used by a second Func (which recomputes it) before
+	// its scope is read: the counters are still those of computing it once ("once per task").
+	Recompute bool `json:"recompute,omitempty"`
 }
 
 var e2eOps = []string{"map", "map", "filter", "flatmap", "fold", "reduce", "cogroup", "reshuffle", "repartition", "reshard", "prefixed", "writerfunc", "source"}
@@ -281,6 +284,38 @@ func runE2E(c e2eCase) (err error, counted int) {
 			runErr = e
 			return
 		}
+		if c.Recompute {
+			res.Discard(ctx)
+			root := spec.Nodes[spec.Root()]
+			use := progen.Spec{Args: []progen.ArgInfo{{Schema: root.Schema, Shards: root.Shards}}}
+			use.Nodes = append(use.Nodes, progen.Node{Op: "arg", Arg: 0})
+			fn := &progen.Fn{}
+			for i := range root.Schema.Cols {
+				fn.Exprs = append(fn.Exprs, progen.Expr{K: "col", I: i})
+			}
+			use.Nodes = append(use.Nodes, progen.Node{Op: "map", In: []int{0}, Fn: fn})
+			if e := progen.Annotate(&use); e != nil {
+				runErr = fmt.Errorf("harness: %v", e)
+				return
+			}
+			use.RunID = runner.NewRunID()
+			defer progen.DropEnv(use.RunID)
+			res2, e := sess.Run(ctx, &use, res)
+			if e != nil {
+				runErr = fmt.Errorf("Func over the discarded Result: %v", e)
+				return
+			}
+			got = progen.UserCounter.Value(res.Scope())
+			got2 = progen.UserCounter2.Value(res.Scope())
+			if g := progen.UserCounter.Value(res2.Scope()); g != got {
+				runErr = fmt.Errorf("the scope of a Func that only copies the Result reports %d increments, the Result's own scope %d", g, got)
+				return
+			}
+			rows, runErr = runner.Scan(ctx, res2, spec.Nodes[spec.Root()].Schema)
+			res2.Discard(ctx)
+			res.Discard(ctx)
+			return
+		}
 		got = progen.UserCounter.Value(res.Scope())
 		got2 = progen.UserCounter2.Value(res.Scope())
 		rows, runErr = runner.Scan(ctx, res, spec.Nodes[spec.Root()].Schema)
@@ -296,7 +331,7 @@ func runE2E(c e2eCase) (err error, counted int) {
 		return fmt.Errorf("rows differ on %s: %v", c.Cfg, e), counted
 	}
 	if got != want || got2 != 2*want {
-		return fmt.Errorf("on %s Result.Scope() reports counters (%d, %d); the reference evaluation performs %d increments of 1 and of 2 (counted nodes: %d)", c.Cfg, got, got2, want, counted), counted
+		return fmt.Errorf("on %s (discarded and recomputed first: %v) Result.Scope() reports counters (%d, %d); the reference evaluation performs %d increments of 1 and of 2 (counted nodes: %d)", c.Cfg, c.Recompute, got, got2, want, counted), counted
 	}
 	return nil, counted
 }
@@ -335,7 +370,7 @@ func TestVerifC20EndToEnd(t *testing.T) {
 	rapid.Check(t, func(rt *rapid.T) {
 		spec := progen.Gen(rt, progen.Opts{MaxOps: 6, Ops: e2eOps, Counters: true, NoShare: true, NoScan: true, MaxRows: 200})
 		cfg := rapid.SampledFrom(cfgs).Draw(rt, "cfg")
-		c := e2eCase{*spec, cfg}
+		c := e2eCase{Spec: *spec, Cfg: cfg, Recompute: rapid.IntRange(0, 3).Draw(rt, "recompute") == 0}
 		for _, n := range spec.Nodes {
 			if n.Op == "reduce" {
 				// known finding: a counting reduce combiner fails the run; excluded by construction
@@ -346,6 +381,9 @@ func TestVerifC20EndToEnd(t *testing.T) {
 		err, counted := runE2E(c)
 		classes, _ := progen.Classes(spec)
 		classes = append(classes, "exec:"+cfg.Exec)
+		if c.Recompute {
+			classes = append(classes, "discard-and-recompute")
+		}
 		rec.Case(counted >= 2, vt.Hash(string(b)), classes...)
 		if counted >= 2 && rec.WantSample(cfg.Exec) {
 			rec.Sample(cfg.Exec, map[string]interface{}{"config": cfg.String(), "program": progen.Summary(spec), "counting_operators": counted})
